@@ -484,6 +484,7 @@ type forkResult struct {
 //   - types.ConvertGoType(_, types.String): every murex value has a string form.
 //   - (*lang.Variables).Set with a constant variable name: fails for reserved
 //     names or unconvertible values only; the constant names used are not reserved.
+//
 // Returns the index of the successor edge that is infeasible (-1: none).
 func excusedErrorEdge(ifi *ssa.If, procVals map[ssa.Value]bool) (int, string) {
 	b, ok := ifi.Cond.(*ssa.BinOp)
